@@ -27,6 +27,7 @@ def run(ctx, R):
     # 'complete' is the negation of 'incomplete' for every result (default is_complete, never overridden)
     classify.flag_algebra(ctx, R, 'C18.N')
     v1model.missing_rule(ctx, R, 'C18.M')
+    v1model.v1_no_panic(ctx, R, 'C18.W')
     closed_window(ctx, R)
 
 
